@@ -4,20 +4,23 @@
 import CM.Proofs.ChainRev
 namespace CM
 
-/-- a layer whose inverse field is one function `g` of its backward input `n` alone, returning the backward output `o` -/
+/-- a layer whose inverse field is one function `g` of its backward input `n` and of any number of the layer's own (forward) parameters `params`,
+returning the backward output `o`; `pts` are the terms the parameters compute -/
 structure InvLayer where
   n : BNode
   o : BNode
   g : EdgeK
   inh : NameSet
+  params : List BNode := []
+  pts : List BTerm := []
 
 def InvLayer.ctx (l : InvLayer) : CtxLayer := ⟨[l.n], [l.o], l.inh⟩
-def InvLayer.edge (l : InvLayer) : BEdge := { edge := l.g, ins := [l.n], out := l.o }
+def InvLayer.edge (l : InvLayer) : BEdge := { edge := l.g, ins := l.n :: l.params, out := l.o }
 
 /-- the inverses applied one after the other, the LAST layer's first: `inv_1(... inv_n(t))` for the layers `[Ln, ..., L1]` -/
 def invTerm : List InvLayer → BTerm → BTerm
   | [], t => t
-  | l :: rest, t => invTerm rest (.node l.g [t])
+  | l :: rest, t => invTerm rest (.node l.g (t :: l.pts))
 
 /-- what the backward pass of the layers returns: the backward output of the first layer (the last of the list) -/
 def lastOut : InvLayer → List InvLayer → BNode
@@ -26,7 +29,8 @@ def lastOut : InvLayer → List InvLayer → BNode
 
 /-- the inverse edges are in the graph -/
 def Wired (r : Bag) (ls : List InvLayer) : Prop :=
-  ∀ l ∈ ls, l.edge ∈ r.edges ∧ l.g ≠ .identity ∧ l.o ∉ r.inputs
+  ∀ l ∈ ls, l.edge ∈ r.edges ∧ l.g ≠ .identity ∧ l.o ∉ r.inputs ∧ l.params.length = l.pts.length ∧
+    ∀ q ∈ l.params.zip l.pts, BDen r q.1 q.2
 
 /-- each layer's backward input computes what the backward output of the layer after it computes -/
 def Linked (r : Bag) : List InvLayer → Prop
@@ -34,13 +38,15 @@ def Linked (r : Bag) : List InvLayer → Prop
   | [_] => True
   | a :: b :: rest => (∀ s, BDen r a.o s → BDen r b.n s) ∧ Linked r (b :: rest)
 
-theorem inv_layer_den {r : Bag} {l : InvLayer} {t : BTerm} (hw : l.edge ∈ r.edges ∧ l.g ≠ .identity ∧ l.o ∉ r.inputs)
-    (h : BDen r l.n t) : BDen r l.o (.node l.g [t]) := by
-  refine BDen.edge (ts := [t]) l.edge hw.2.2 hw.1 rfl hw.2.1 rfl ?_
+theorem inv_layer_den {r : Bag} {l : InvLayer} {t : BTerm} (hw : l.edge ∈ r.edges ∧ l.g ≠ .identity ∧ l.o ∉ r.inputs ∧
+      l.params.length = l.pts.length ∧ ∀ q ∈ l.params.zip l.pts, BDen r q.1 q.2)
+    (h : BDen r l.n t) : BDen r l.o (.node l.g (t :: l.pts)) := by
+  refine BDen.edge (ts := t :: l.pts) l.edge hw.2.2.1 hw.1 rfl hw.2.1 (by simp [InvLayer.edge, hw.2.2.2.1]) ?_
   intro q hq
-  simp only [InvLayer.edge, List.zip_cons_cons, List.zip_nil_right, List.mem_singleton] at hq
-  subst hq
-  exact h
+  simp only [InvLayer.edge, List.zip_cons_cons, List.mem_cons] at hq
+  rcases hq with rfl | hq
+  · exact h
+  · exact hw.2.2.2.2 q hq
 
 /-- **The closed term of a chain of inverses of any length.** -/
 theorem inv_chain_den {r : Bag} : ∀ (ls : List InvLayer) (l0 : InvLayer) (t : BTerm), Wired r (l0 :: ls) → Linked r (l0 :: ls) →
